@@ -124,7 +124,48 @@ Theorem C03_cancel_ping_body_ignored : forall st mt id p1 p2,
   handle_frame_no_relay st mt id p1 = handle_frame_no_relay st mt id p2.
 Proof. exact cancel_ping_body_ignored. Qed.
 
+(* ---- ping requests (repaired code: a draining connection answers pings) ----
+   TIE: whether a ping req is answered is decided by the state test that go2v regenerates from
+   the `if state := c.readState(); state == connectionClosed {` statement of
+   Connection.handlePingReq on every run (Gen/GenClose2.v pingReqAnswer: 1 = the ping res is
+   sent, 0 = protocolError) -- both in the model's step and in the specification [frame_legal] *)
+From Verif Require Import Gen.GenClose2.
+Theorem C03_ping_state_test_generated : forall st id,
+  handle_ping_req st id =
+  (if pingReqAnswer (cs_state st) =? 1
+   then (if cs_sendroom st >? 0 then (set_room (cs_sendroom st - 1) st, [SendFrame c_messageTypePingRes id 0])
+         else connection_error st)
+   else protocol_error st id).
+Proof. exact ping_state_test_generated. Qed.
+
+Theorem C03_ping_legal_generated : forall st id payload,
+  frame_legal st c_messageTypePingReq id payload = (pingReqAnswer (cs_state st) =? 1).
+Proof. exact ping_legal_generated. Qed.
+
+(* of the four connection states only Closed refuses a ping *)
+Theorem C03_ping_refused_only_closed :
+  pingReqAnswer c_connectionActive = 1 /\ pingReqAnswer c_connectionStartClose = 1 /\
+  pingReqAnswer c_connectionInboundClosed = 1 /\ pingReqAnswer c_connectionClosed = 0.
+Proof. exact ping_refused_only_closed. Qed.
+
+(* a ping req on a connection that is not Closed (Active, or draining after Close with whatever
+   calls in flight) and with room in the send queue has exactly one effect, the ping res with
+   the request's id, and changes nothing but the send queue: no exchange is failed, the close
+   state stays -- the peer's health check no longer tears a draining connection down *)
+Theorem C03_ping_answered_unless_closed : forall st id payload, cs_state st <> c_connectionClosed -> cs_sendroom st > 0 ->
+  handle_frame_no_relay st c_messageTypePingReq id payload
+  = (set_room (cs_sendroom st - 1) st, [SendFrame c_messageTypePingRes id 0]).
+Proof. exact ping_answered_unless_closed. Qed.
+
+(* a Closed connection refuses it: illegal frame, nothing sent, exchanges stopped *)
+Theorem C03_ping_refused_closed : forall st id payload, cs_state st = c_connectionClosed ->
+  snd (handle_frame_no_relay st c_messageTypePingReq id payload) = [CloseConn] /\
+  frame_legal st c_messageTypePingReq id payload = false.
+Proof. exact ping_refused_closed. Qed.
+
 Print Assumptions C03_no_panic.
+Print Assumptions C03_ping_state_test_generated.
+Print Assumptions C03_ping_answered_unless_closed.
 Print Assumptions C03_no_panic_stream.
 Print Assumptions C03_effects.
 Print Assumptions C03_error_frame.
@@ -158,6 +199,20 @@ Example C03_example_dropped :
   /\ snd (handle_frame (ex_active []) (ex_hdr 18 0x77 7) [1; 2]) = [Drop]
   /\ snd (handle_frame (ex_active []) (ex_hdr 15 3 7) ex_callreq) = [CloseConn].
 Proof. vm_compute. repeat split; reflexivity. Qed.
+
+(* ... a ping req while the connection drains after Close (call 5 in flight) is a legal frame
+   and is answered with a ping res; the state is untouched apart from the send queue ... *)
+Example C03_example_ping_draining :
+  handle_frame (mkCS c_connectionStartClose [(5, mx_new)] [] false 8 false) (ex_hdr 16 0xd0 9) []
+  = (mkCS c_connectionStartClose [(5, mx_new)] [] false 7 false, [SendFrame c_messageTypePingRes 9 0])
+  /\ frame_wf_legal (mkCS c_connectionStartClose [(5, mx_new)] [] false 8 false) (ex_hdr 16 0xd0 9) [] = true
+  /\ frame_wf_legal (mkCS c_connectionInboundClosed [] [(6, mx_new)] false 8 false) (ex_hdr 16 0xd0 9) [] = true.
+Proof. vm_compute. repeat split; reflexivity. Qed.
+(* ... on a Closed connection it is illegal and only shuts the (already closed) connection down *)
+Example C03_example_ping_closed :
+  snd (handle_frame (mkCS c_connectionClosed [] [] false 8 false) (ex_hdr 16 0xd0 9) []) = [CloseConn]
+  /\ frame_wf_legal (mkCS c_connectionClosed [] [] false 8 false) (ex_hdr 16 0xd0 9) [] = false.
+Proof. vm_compute. split; reflexivity. Qed.
 
 (* ======================================================================================
    Relay connections, ids re-used over time ("frames for ... duplicate ids" of the quantifier).
@@ -252,16 +307,33 @@ Theorem C03_stale_collection_harmless :
     lookup Z.eqb (it_tm it) (timers st) = Some x /\ tm_armed x = true.
 Proof. exact stale_collection_harmless. Qed.
 
+(* The schedule that refuted the unguarded statement before the fix "the relay finishes (deletes)
+   a relay item only if it still belongs to the call the frame path looked up" ([ex_stale_finish]:
+   the reader of the destination connection has looked the originating item up for the final call
+   res -- relay.Receive.afterGet --, the caller's cancel is relayed, the id re-used at once and
+   admitted, the first reader goes on: finishRelayItem; reproduced on the implementation by C09's
+   engine relaystale, verdict [c09:stale-finish-deletes-live-item]) is harmless for the code as it
+   is: relayItems.deleteCall finds an item of another call and leaves it alone; the re-using call
+   (call 2) keeps its item, its armed timer and its pending count. *)
+Theorem C03_stale_finish_harmless :
+  exists st it x, run cn_cf init ex_stale_finish = Some st /\ panicked st = 0 /\
+    lookup key_eqb (0, 0, 7) (items st) = Some it /\ it_tomb it = false /\ it_call it = 2 /\
+    lookup Z.eqb (it_tm it) (timers st) = Some x /\ tm_armed x = true /\ c_pending (get_conn st 0) = 1.
+Proof. exact stale_finish_harmless. Qed.
+
 (* The guard of [run_reuse] is STILL NECESSARY: the unrestricted statement "no schedule with
-   re-used ids panics" is REFUTED for the code as it is by [ex_stale_finish]: the reader of the
-   destination connection has looked the originating item up for the final call res (timer
-   stopped, copy held: relay.Receive.afterGet); the caller cancels the call (cancel relayed, both
-   items deleted, End) and re-uses the id at once: no item, admitted, a live item with an armed
-   timer under the same key; the first reader goes on and finishRelayItem deletes the LIVE item of
-   the new call: release of an active timer, panic "only stopped or completed timers can be
-   released".  The re-using call req met no item, so the schedule is outside [run_reuse]. *)
+   re-used ids panics" is REFUTED for the code as it is by [ex_stale_fail] (RelayMaxTombs = 1 and
+   two tombstones of earlier calls): failRelayItem looks the item up (Get: timer stopped) and
+   entombs BY ID in a second lock region; the reader of the destination connection, failing the
+   call because the caller's send queue is full, is between the two; the caller's cancel is
+   relayed (both items deleted, End) and the id re-used at once (no item: admitted, live item,
+   armed timer); Entomb then finds more than RelayMaxTombs tombstones and deletes by id at once:
+   the LIVE item of the new call, whose active timer it releases: panic "only stopped or completed
+   timers can be released".  (Model witness only: relay.go has no schedule point between the Get
+   and the Entomb of failRelayItem; the re-using call req met no item, so the schedule is outside
+   [run_reuse].) *)
 Theorem C03_relay_reuse_unguarded_refuted :
-  exists ls st, run cn_cf init ls = Some st /\ panicked st = panic_release_active.
+  exists ls st, run tt_cf init ls = Some st /\ panicked st = panic_release_active.
 Proof. exact reuse_unguarded_refuted. Qed.
 
 (* the fresh-id schedules of C09/C10 are re-use schedules (the guard speaks about re-used ids only) *)
@@ -272,6 +344,7 @@ Print Assumptions C03_relay_admission_generated.
 Print Assumptions C03_duplicate_check_covers_tombstones.
 Print Assumptions C03_collection_leaves_live_item.
 Print Assumptions C03_stale_collection_harmless.
+Print Assumptions C03_stale_finish_harmless.
 Print Assumptions C03_relay_reuse_simulated.
 Print Assumptions C03_relay_reuse_no_panic.
 Print Assumptions C03_fresh_schedules_included.
